@@ -138,10 +138,25 @@ Definition label_of_sx (x : sx) : label * nat :=
   | SL [SI 0; i] => (LIssue, sx_nat i) | SL [SI 1; i] => (LStep, sx_nat i) | SL [SI 2; i] => (LTimeout, sx_nat i)
   | SL [SI 3; q] => (LAnswer (sx_nat q), O) | _ => (LTimeout, O)
   end%Z.
+(* what the harness saw the thread do, checked BEFORE the model takes the step: the pc the thread must be at and, for reads and
+   dispatches, the sequence number involved: [SL [SI 1; tid; SI pc; SI q]] (q = -1: no number to check) *)
+Definition expect_ok (s : st) (i : nat) (e : sx) : bool :=
+  match e with
+  | SL [_; _; SI p; SI q] =>
+      Z.eqb (pc_n (tpc (thrs s i))) p &&
+      (if Z.ltb q 0 then true
+       else match tpc (thrs s i) with
+            | S2 => match inbox s with h :: _ => Nat.eqb h (Z.to_nat q) | [] => false end     (* the frame read is the oldest in the stream *)
+            | S5 => match hand (thrs s i) with Some h => Nat.eqb h (Z.to_nat q) | None => false end
+            | _ => true
+            end)
+  | _ => true
+  end%Z.
 Fixpoint replay (s : st) (evs : list sx) (k : nat) : sx + st :=
   match evs with
   | [] => inr s
-  | e :: rest => let '(l, i) := label_of_sx e in
+  | e :: rest => let '(l, i) := label_of_sx (match e with SL (a :: b :: _) => SL [a; b] | _ => e end) in
+                 if negb (expect_ok s i e) then inl (SL [SS "kind-mismatch"; snat k; SI (pc_n (tpc (thrs s i)))]) else
                  match step l i s with
                  | Some s' => replay s' rest (S k)
                  | None => inl (SL [SS "not-enabled"; snat k; SI (pc_n (tpc (thrs s i)))])
